@@ -55,7 +55,7 @@ class Ty:
         return "Ty(%s)" % self.text()
 
 
-BIT, INT, STRING, DAG = Ty("bit"), Ty("int"), Ty("string"), Ty("dag")
+BIT, INT, STRING, DAG, CODE = Ty("bit"), Ty("int"), Ty("string"), Ty("dag"), Ty("code")
 
 
 def BITS(n):
@@ -81,6 +81,10 @@ def assignable(src, dst):
     """Conservative: only the conversions the generator itself uses."""
     if src == dst:
         return True
+    if {src.k, dst.k} == {"string", "code"}:
+        return True
+    if dst.k == "int" and src.k in ("bit", "bits"):
+        return True          # (the other direction depends on the value fitting)
     if src.k == "class" and dst.k == "class":
         return is_subclass(src.cls, dst.cls)
     if src.k == "list" and dst.k == "list":
@@ -153,6 +157,8 @@ class Writer:
         self.stmt_ends = []  # dict(file, pos, kind): position of a mandatory terminator token
         self.stmt_gaps = []  # dict(file, pos): top-level position between two statements
         self.overrides = []  # let sites: dict(file,start,end,field,owner)
+        self.known_false = []  # sites where the implementation is KNOWN to report a false diagnostic: dict(file,start,end,kind)
+        self.regions = []      # dict(file,start,end,cause,mode): text whose discrepancies get the construct name `cause`
         self.nest = []       # nesting context names
         self.cov = {}        # coverage counters
         self.tick = 0        # global rendering order (bytes written so far, all files)
@@ -269,18 +275,67 @@ class IdUse(Expr):
         w.use(self.decl, self.name, self.tag)
 
 
+def range_text(r, n, k):
+    """A range list selecting k bits of a bits<n> value (all indexes < n), in one of TableGen's spellings."""
+    if k == 1:
+        return str(r.randrange(n))
+    lo = r.randint(0, n - k)
+    hi = lo + k - 1
+    style = r.choice(["hi-lo", "hi-lo", "hi...lo", "lo-hi", "lo...hi", "list"])
+    if style == "hi-lo":
+        return "%d-%d" % (hi, lo)
+    if style == "hi...lo":
+        return "%d...%d" % (hi, lo)
+    if style == "lo-hi":
+        return "%d-%d" % (lo, hi)
+    if style == "lo...hi":
+        return "%d...%d" % (lo, hi)
+    if k == 2:
+        return "%d, %d" % (hi, lo)
+    return "%d, %d-%d" % (hi, hi - 1, lo)
+
+
+class BitRange(Expr):
+    """`v{3-0}`: bits of a bits-typed value; ty = bits<k> (one index: a single bit)."""
+
+    def __init__(self, base, text, ty):
+        self.base, self.text, self.ty = base, text, ty
+
+    def render(self, w):
+        self.base.render(w)
+        w.put("{" + self.text + "}")
+        w.count("suffix:bit-range:%s" % ("single" if self.ty.k == "bit" or self.ty.n == 1 else
+                                          ("list" if "," in self.text else ("dots" if "..." in self.text else "dash"))))
+
+    def children(self):
+        return [self.base]
+
+
+def starts_with_brace(e):
+    if isinstance(e, Lit):
+        return e.t.startswith("{")
+    if isinstance(e, Marked):
+        return starts_with_brace(e.inner)
+    return isinstance(e, BitsCat)
+
+
 class ListLit(Expr):
     def __init__(self, elems, ty):
         self.elems, self.ty = elems, ty
+
+    trailing_comma = False
 
     def render(self, w):
         w.put("[")
         for i, e in enumerate(self.elems):
             if i:
                 w.put(", ")
-            elif isinstance(e, Lit) and e.t.startswith("{"):
+            elif starts_with_brace(e):
                 w.put(" ")       # `[{` would start a code block
             e.render(w)
+        if self.trailing_comma and self.elems:
+            w.put(",")
+            w.count("list:trailing-comma")
         w.put("]")
 
     def children(self):
@@ -303,30 +358,123 @@ class Paste(Expr):
 
 class DagLit(Expr):
     def __init__(self, op, args):
-        self.op, self.args, self.ty = op, args, DAG  # args: [(Expr, name|None)]
+        self.op, self.args, self.ty = op, args, DAG  # args: [(Expr | None, name|None)]; (None, name): a bare `$name`
 
     def render(self, w):
         w.put("(")
         self.op.render(w)
         for i, (e, n) in enumerate(self.args):
             w.put(" " if i == 0 else ", ")
+            if e is None:
+                w.put("$" + n)
+                w.count("dag:bare-name")
+                continue
             e.render(w)
             if n:
                 w.put(":$" + n)
+                w.count("dag:named-arg")
         w.put(")")
+        w.count("dag:%d-args" % len(self.args))
 
     def children(self):
-        return [self.op] + [e for e, _ in self.args]
+        return [self.op] + [e for e, _ in self.args if e is not None]
+
+
+class DefmRecordUse(Expr):
+    """The name of a record created by a defm (`defm dm : M;` + `def _x` in M -> `dm_x`): valid TableGen, no declaring
+    identifier in the text.  The indexer does not create these records (known finding defm_record_use)."""
+
+    def __init__(self, name, ty):
+        self.name, self.ty = name, ty
+
+    def render(self, w):
+        s = w.pos()
+        w.put(self.name)
+        w.known_false.append(dict(file=w.cur, start=s, end=w.pos(), kind="defm_record_use"))
+        w.count("use:defm-record")
+
+
+class Marked(Expr):
+    """An expression whose discrepancies are reported under one construct name (a defect found with this construct).
+    mode 'inside': discrepancies located inside the expression; 'contains': located at a range that contains it."""
+
+    def __init__(self, inner, cause, mode="inside"):
+        self.inner, self.cause, self.mode, self.ty = inner, cause, mode, inner.ty
+
+    def render(self, w):
+        s = w.pos()
+        self.inner.render(w)
+        w.regions.append(dict(file=w.cur, start=s, end=w.pos(), cause=self.cause, mode=self.mode))
+        w.count("construct:" + self.cause)
+
+    def children(self):
+        return [self.inner]
+
+
+class BitsCat(Expr):
+    """`{ x{1-0}, 1, 0b10, y }`: a bits value written as the concatenation of bits of any width."""
+
+    def __init__(self, elems, ty):
+        self.elems, self.ty = elems, ty
+
+    def render(self, w):
+        w.put("{")
+        for i, e in enumerate(self.elems):
+            if i:
+                w.put(", ")
+            e.render(w)
+        w.put("}")
+
+    def children(self):
+        return self.elems
+
+
+class ListSlice(Expr):
+    """`l[0]` (an element) or `l[0...1]`, `l[1-2]`, `l[0, 2]` (a list)."""
+
+    def __init__(self, base, text, ty):
+        self.base, self.text, self.ty = base, text, ty
+
+    def render(self, w):
+        self.base.render(w)
+        w.put("[" + self.text + "]")
+        w.count("suffix:list-%s" % ("element" if self.ty.k != "list" or "," not in self.text and "-" not in self.text and "." not in self.text
+                                    else "slice"))
+
+    def children(self):
+        return [self.base]
+
+
+class Cond(Expr):
+    """!cond(c1: v1, c2: v2, true: vn)"""
+
+    def __init__(self, clauses, ty):
+        self.clauses, self.ty = clauses, ty
+
+    def render(self, w):
+        s = w.pos()
+        w.put("!cond(")
+        for i, (c, v) in enumerate(self.clauses):
+            if i:
+                w.put(", ")
+            c.render(w)
+            w.put(": ")
+            v.render(w)
+        w.put(")")
+        w.count("bang:cond")
+
+    def children(self):
+        return [x for cv in self.clauses for x in cv]
 
 
 class FieldAccess(Expr):
-    def __init__(self, base, field, tag):
-        self.base, self.field, self.ty, self.tag = base, field, field.ty, tag
+    def __init__(self, base, field, tag, visited=True):
+        self.base, self.field, self.ty, self.tag, self.visited = base, field, field.ty, tag, visited
 
     def render(self, w):
         self.base.render(w)
         w.put(".")
-        w.use(self.field, self.field.name, self.tag)
+        w.use(self.field, self.field.name, self.tag, visited=self.visited)
 
     def children(self):
         return [self.base]
@@ -369,7 +517,7 @@ class ClassRef:
             w.put(">")
         params = self.target.info["targs"]
         w.classrefs.append(dict(file=w.cur, span=(s, w.pos()), name_span=(s, ne), target=self.target,
-                                args=arginfo, angle=self.angle, ctx=ctx,
+                                args=arginfo, angle=self.angle, ctx=ctx, path="/".join(w.nest),
                                 nparams=len(params), nreq=sum(1 for p in params if not p.info.get("default")),
                                 named=any(a["name"] for a in arginfo)))
         w.count("classref:%s:%d-args%s" % (ctx, len(self.args), ":named" if any(a["name"] for a in arginfo) else ""))
@@ -399,7 +547,7 @@ class Bang(Expr):
              "head": (1, 1), "tail": (1, 1), "empty": (1, 1), "foreach": (3, 3), "foldl": (5, 5),
              "filter": (3, 3), "cast": (1, 1), "isa": (1, 1), "not": (1, 1), "xor": (2, None), "shl": (2, 2),
              "srl": (2, 2), "sra": (2, 2), "find": (2, 3), "interleave": (2, 2), "substr": (2, 3), "subst": (3, 3),
-             "listsplat": (2, 2)}
+             "listsplat": (2, 2), "con": (2, None), "dag": (3, 3), "setdagop": (2, 2), "getdagop": (1, 1)}
 
     def __init__(self, op, args, ty, annot=None, vars=None):
         self.op, self.args, self.ty, self.annot, self.vars = op, args, ty, annot, vars or {}
@@ -438,7 +586,9 @@ class Bang(Expr):
 
 def render_type(w, ty, tag):
     if ty.k == "class":
-        w.use(ty.cls, ty.cls.name, tag)
+        # before the definition of a forward-declared class: which of the two `class X` is "the" declaration is open
+        early = ty.cls.info.get("forward") and getattr(ty.cls, "rid", None) is not w.rid
+        w.use(ty.cls, ty.cls.name, tag + (":before-definition" if early else ""), visited=None if early else True)
     elif ty.k == "list":
         w.put("list<")
         render_type(w, ty.elem, tag)
@@ -448,11 +598,14 @@ def render_type(w, ty, tag):
     w.count("type:" + ty.k)
 
 
-def render_value(w, e, expect, ctx):
+def render_value(w, e, expect, ctx, fwd=False):
     """Render a value in a typed context and remember the site (for the type-fault seeder)."""
     s = w.pos()
     e.render(w)
     w.values.append(dict(file=w.cur, span=(s, w.pos()), ty=expect, ctx=ctx))
+    if fwd:
+        # the field was declared with a class type before that class was defined
+        w.known_false.append(dict(file=w.cur, start=s, end=w.pos(), kind="forward_class"))
 
 
 # --------------------------------------------------------------------------------------------
@@ -528,9 +681,9 @@ def set_doc(d, doc, inline=False):
 # --------------------------------------------------------------------------------------------
 
 
-def onode(kind, name, loc, typ, children=None, lenient_name=False):
+def onode(kind, name, loc, typ, children=None, lenient_name=False, optional=False):
     return dict(kind=kind, name=name, range=[loc[1], loc[2]], typ=typ, children=children or [],
-                lenient_name=lenient_name)
+                lenient_name=lenient_name, optional=optional)
 
 
 class Stmt:
@@ -642,7 +795,8 @@ def render_targs(w, targs, multiline):
 def render_parents(w, parents, ctx):
     for i, r in enumerate(parents):
         w.put(" : " if i == 0 else ", ")
-        r.render(w, ctx)
+        # `defm m : M<1>, Tag, Sched<3>;`: classes after the multiclasses become parents of every def created
+        r.render(w, "defm-class" if ctx == "defm-ref" and r.target.kind == "class" else ctx)
 
 
 class FieldDef:
@@ -672,21 +826,30 @@ class FieldDef:
 class FieldLet:
     kind = "fieldlet"
 
-    def __init__(self, field, expr, doc=None):
-        self.field, self.expr, self.doc = field, expr, doc
+    def __init__(self, field, expr, doc=None, rng=None, vty=None):
+        # rng: range list text of `let f{3-0} = v;` (vty: the type of the selected bits)
+        self.field, self.expr, self.doc, self.rng, self.vty = field, expr, doc, rng, vty
 
     def render(self, w, inline, children):
         if not inline:
             begin_stmt(w, self)
         w.put("let ")
         s = w.pos()
-        w.use(self.field, self.field.name, "let-field-name")
+        w.use(self.field, self.field.name, "let-field-name" + (":range" if self.rng else ""))
         e = w.pos()
-        children.append(onode("Field", self.field.name, (w.cur, s, e), self.field.ty.text()))
-        w.hints[w.cur].append(dict(pos=e, label=":" + self.field.ty.text(), kind="FieldLet", tag="field-let"))
+        # a field that already has a child in this body (declared here, or an earlier `let` of it): the property
+        # does not say whether it is listed once or per statement
+        dup = any(c["name"] == self.field.name for c in children)
+        children.append(onode("Field", self.field.name, (w.cur, s, e), self.field.ty.text(), optional=dup))
+        w.hints[w.cur].append(dict(pos=e, label=":" + self.field.ty.text(), kind="FieldLet",
+                                   tag="field-let" + (":range" if self.rng else "")))
         w.overrides.append(dict(file=w.cur, start=s, end=e, field=self.field))
+        if self.rng:
+            w.put("{" + self.rng + "}")
+            w.count("let:range:%s" % ("single" if "," not in self.rng and "-" not in self.rng and "." not in self.rng else "multi"))
         w.put(" = ")
-        render_value(w, self.expr, self.field.ty, "let-value")
+        render_value(w, self.expr, self.vty or self.field.ty, "let-value" + (":range" if self.rng else ""),
+                     fwd=bool(self.field.info.get("fwd_typed")))
         w.put(";")
         w.stmt_ends.append(dict(file=w.cur, pos=w.pos() - 1, kind=";"))
         w.count("hint:fieldlet")
@@ -764,20 +927,45 @@ class ClassStmt(Stmt):
         w.count("class:%d-targs:%d-parents:%s" % (len(self.targs), len(self.parents), "body" if self.items is not None else "nobody"))
 
 
+class ForwardClassStmt(Stmt):
+    """`class X;` before the definition of X (known finding forward_class: the indexer makes two class symbols)."""
+    kind, foldable = "class", True
+
+    def __init__(self, decl, doc=None):
+        self.decl, self.doc = decl, doc
+
+    def body(self, w, inline):
+        w.put("class ")
+        s = w.pos()
+        w.use(self.decl, self.decl.name, "forward-class-declaration", visited=None)
+        (w.ostack[-1] if w.ostack else w.outline[w.cur]).append(
+            onode("Class", self.decl.name, (w.cur, s, w.pos()), "class", [], optional=True))
+        w.put(";")
+        w.stmt_ends.append(dict(file=w.cur, pos=w.pos() - 1, kind=";"))
+        w.count("class:forward-declaration")
+
+
 class DefStmt(Stmt):
     kind, foldable = "def", True
 
-    def __init__(self, decl, suffix, parents, items, doc=None, oneline=False):
+    def __init__(self, decl, suffix, parents, items, doc=None, oneline=False, name_prefix=False):
         # decl None: anonymous.  suffix: list of Expr pasted to the name (`def d#i`)
+        # name_prefix: `def NAME#_y` inside a multiclass (the explicit spelling of the implicit prefix)
         self.decl, self.suffix, self.parents, self.items = decl, suffix, parents, items
-        self.doc, self.oneline = doc, oneline
+        self.doc, self.oneline, self.name_prefix = doc, oneline, name_prefix
 
     def body(self, w, inline):
         w.put("def")
-        loc = None
+        loc = nloc = None
         if self.decl is not None:
             set_doc(self.decl, self.doc or NODOC, inline)
             w.put(" ")
+            if self.name_prefix:
+                s = w.pos()
+                w.put("NAME")
+                nloc = (w.cur, s, w.pos())
+                w.put("#")
+                w.count("def:NAME-prefix")
             loc = w.decl(self.decl)
             for e in self.suffix:
                 w.put("#")
@@ -795,8 +983,13 @@ class DefStmt(Stmt):
         ch = render_body(w, self.items, self.oneline, "def")
         w.pop_scope()
         if self.decl is not None:
-            (w.ostack[-1] if w.ostack else w.outline[w.cur]).append(
-                onode("Def", self.decl.name, loc, "def", ch, lenient_name=bool(self.suffix)))
+            dst = w.ostack[-1] if w.ostack else w.outline[w.cur]
+            if nloc is not None:
+                # which token of `NAME#_y` is "the declaring identifier" is open: either is accepted
+                dst.append(onode("Def", self.decl.name, nloc, "def", ch, lenient_name=True, optional=True))
+                dst.append(onode("Def", self.decl.name, loc, "def", ch, lenient_name=True, optional=True))
+            else:
+                dst.append(onode("Def", self.decl.name, loc, "def", ch, lenient_name=bool(self.suffix)))
 
 
 class DefvarStmt(Stmt):
@@ -895,8 +1088,9 @@ class IfStmt(Stmt):
 class LetStmt(Stmt):
     kind, foldable = "let", True
 
-    def __init__(self, items, stmts, braces, doc=None):
+    def __init__(self, items, stmts, braces, doc=None, ranges=None):
         self.items, self.stmts, self.braces, self.doc = items, stmts, braces, doc  # items: [(field Decl, Expr)]
+        self.ranges = ranges or {}      # item index -> (range list text, type of the selected bits)
 
     def body(self, w, inline):
         w.put("let ")
@@ -904,8 +1098,13 @@ class LetStmt(Stmt):
             if i:
                 w.put(", ")
             w.use(f, f.name, "let-in-field-name", visited=False)
+            vty = f.ty
+            if i in self.ranges:
+                w.put("<" + self.ranges[i][0] + ">")       # (the statement form spells the bit range with angle brackets)
+                vty = self.ranges[i][1]
+                w.count("let-in:range")
             w.put(" = ")
-            render_value(w, e, f.ty, "let-in-value")
+            render_value(w, e, vty, "let-in-value")
         w.put(" in ")
         render_block(w, self.stmts, self.braces, "let")
 
@@ -974,6 +1173,8 @@ class DefmStmt(Stmt):
         self.decl, self.suffix, self.refs, self.doc = decl, suffix, refs, doc
 
     def body(self, w, inline):
+        if not self.refs or self.refs[0].target.kind != "multiclass":
+            raise Invalid("a defm needs a multiclass first")
         w.put("defm")
         if self.decl is not None:
             set_doc(self.decl, self.doc or NODOC, inline)
@@ -1046,6 +1247,15 @@ def overridden_names(parents):
     return out
 
 
+def has_unset(e):
+    """The value contains a `?` somewhere."""
+    if isinstance(e, Lit) and e.t == "?":
+        return True
+    if isinstance(e, ClassValue):
+        return any(has_unset(x) for x in e.ref.exprs())
+    return any(has_unset(c) for c in e.children() if c is not None)
+
+
 class Scopes:
     def __init__(self):
         self.frames = [Frame("global")]
@@ -1104,6 +1314,8 @@ DEFAULT_OPTS = dict(
     includes=True, docs=True, shadowing=True, oos=True, named_args=True,
     heir_targs=False,      # use a parent's template argument in an heir (property text vs TableGen: ambiguous)
     assert_stmt=True,      # `assert cond, "message";` statements and body items
+    known_false=True,      # a minority of programs (about 5%) contains a construct with a KNOWN false diagnostic
+                           # (forward-declared class, use of a record created by a defm); see Program.known_false
     avoid=(),              # constructs to leave out (to unmask defects hidden behind known ones), see AVOIDABLE
 )
 
@@ -1117,6 +1329,12 @@ AVOIDABLE = {
     "defset-use": "the name of a defset used as a value",
     "if-let-defvar": "defvar statement directly inside an if / let block",
     "assert": "assert statements",
+    "bit-as-bits1": "a single bit (`v{0}`, a bit-typed name) where bits<1> is expected and vice versa",
+    "same-body-let": "a field declared and overridden by `let` in the same body (the encoding idiom)",
+    "defm-class-in-multiclass": "a defm inside a multiclass with classes after its multiclasses",
+    "bits-concat": "a bits literal `{...}` with elements wider than one bit",
+    "list-paste": "`#` between two lists",
+    "def-typed-join": "!if / !listconcat over different defs of one class (or a def and a class value)",
 }
 
 WORDS = ["alpha", "beta", "gamma", "delta", "epsilon", "zeta", "eta", "theta"]
@@ -1149,17 +1367,32 @@ class Gen:
         self.no_fields = False      # fields of the enclosing record are not (yet) visible
         self.no_record = False      # neither fields nor template arguments of the enclosing record
         self.excluded = set()       # names that must not be read here (the declaration being initialised)
+        self.no_binders = False     # no !foreach / !filter / !foldl here
+        self.literals_only = False  # no names at all (a value written into a scope other than the current one)
         self.refstack = []
         self.future_fields = set()
         self.loops = []             # enclosing foreach iterators (instantiation context)
         self.unusable = 0           # >0: defs declared here cannot be referenced later
         self.in_defset = 0
         self.mc_defs = []
+        self.mc_prod = []
+        self.defm_records = []      # records created by top-level defms: (name, parent classes)
         self.in_if = 0
         self.cur_path = []
         self.nested_includes = 0
         self.nested_where = "foreach"
         self.block_braces = False
+        self.in_mc_def = False      # inside a def written in a multiclass (NAME is defined)
+        self.in_plain_def = False   # inside a def at top level (not in a multiclass, not in a foreach)
+        self.in_defvar = False
+        rate = self.o.get("known_false_rate", 0.03)
+        self.kf_fwd = self.r.random() < rate and bool(self.o.get("known_false"))
+        self.kf_defm = self.r.random() < rate and bool(self.o.get("known_false"))
+        self.kf_defm_tried = False
+        self.pending_fwd = None     # a class declared `class X;` and not yet defined
+        self.fwd_done = False
+        self.in_cond = False
+        self.no_suffix = False      # no `[..]` / `{..}` suffix here (operand of `#`)
 
     # -- helpers
     def fresh(self, prefix):
@@ -1207,7 +1440,9 @@ class Gen:
     # -- types
     def rand_type(self, depth=0, allow_class=True):
         r = self.r
-        ks = ["int", "int", "string", "bit", "bits", "list"]
+        ks = ["int", "int", "string", "bit", "bits", "bits", "list"]
+        if depth == 0 and self.p(0.03):
+            return CODE
         if any(d.kind == "def" and d.info.get("usable") for d in self.sc.visible().values()):
             ks.append("dag")
         if allow_class and self.usable_classes():
@@ -1222,7 +1457,7 @@ class Gen:
         if k == "dag":
             return DAG
         if k == "bits":
-            return BITS(r.randint(1, 4))
+            return BITS(r.choice([2, 2, 3, 4, 4, 4, 8, 16] if "bit-as-bits1" in self.avoid else [1, 2, 2, 3, 4, 4, 4, 8, 16]))
         if k == "list":
             if depth >= 1:
                 return LIST(r.choice([INT, STRING]))
@@ -1238,21 +1473,47 @@ class Gen:
         r = self.r
         k = ty.k
         if k == "int":
+            c = r.random()
+            if c < 0.08:
+                return Lit("0x%X" % r.randint(0, 255), INT)
+            if c < 0.12:
+                return Lit(r.choice(["-", "+"]) + str(r.randint(1, 9)), INT)
+            if c < 0.16 and not exact and self.depth <= 1:
+                # (a binary literal is a bits<n> value: only directly in an int-typed position)
+                return Lit("0b" + "".join(r.choice("01") for _ in range(r.randint(1, 5))), INT)
             return Lit(str(r.randint(0, 9)), INT)
         if k == "string":
+            if not exact and self.p(0.04):
+                return Lit("[{ %s }]" % self.r.choice(WORDS), STRING)
+            if self.p(0.04):
+                return Lit('"%s" "%s"' % (self.r.choice(WORDS), self.r.choice(WORDS)), STRING)      # adjacent literals concatenate
+            if self.p(0.04):
+                return Lit('"%s%s%s"' % (self.r.choice(WORDS), self.r.choice(['\\"', "\\\\", "\\n", "\\t"]), self.r.choice(WORDS)), STRING)
             return Lit('"%s"' % self.word(), STRING)
+        if k == "code":
+            if self.p(0.7):
+                return Lit("[{ return %s; }]" % self.r.choice(WORDS), CODE)
+            return Lit('"%s"' % self.r.choice(WORDS), CODE)
         if k == "bit":
             if exact or self.p(0.5):
                 return Lit(r.choice(["true", "false"]), BIT)
             return Lit(r.choice(["0", "1"]), BIT)
         if k == "bits":
-            if exact or self.p(0.6):
+            if exact or (ty.n <= 4 and self.p(0.45)):
                 return Lit("{" + ", ".join(r.choice("01") for _ in range(ty.n)) + "}", ty)
-            return Lit(str(r.randint(0, (1 << ty.n) - 1)), ty)
+            c = r.random()
+            v = r.randint(0, (1 << ty.n) - 1)
+            if c < 0.4:
+                return Lit("0b" + format(v, "0%db" % ty.n), ty)      # a binary literal has exactly n bits
+            if c < 0.55:
+                return Lit("0x%X" % v, ty)
+            return Lit(str(v), ty)
         if k == "list":
             if not exact and self.depth <= 1 and self.posctx[-1] in ("field-init", "let-value", "targ-default") and self.p(0.15):
                 return Lit("[]", ty)
-            return ListLit(self.list_elems(ty.elem, exact, r.randint(1, 3), True), ty)
+            l = ListLit(self.list_elems(ty.elem, exact, r.randint(1, 3), True), ty)
+            l.trailing_comma = self.p(0.05)
+            return l
         if k == "dag":
             return self.dag()
         if k == "class":
@@ -1260,6 +1521,7 @@ class Gen:
         raise AssertionError(k)
 
     def list_elems(self, el, exact, n, leafy=False):
+        exact = exact or el.k in ("int", "bit", "bits")      # (the elements of a list literal must have one type)
         out = []
         for i in range(n):
             if i and "list-tail-ids" in self.avoid:
@@ -1280,25 +1542,58 @@ class Gen:
         return None
 
     def defs_of(self, cls):
+        if self.literals_only:
+            return []
         vis = self.sc.visible()
         return [d for d in vis.values() if d.kind == "def" and d.info.get("usable") and d.name not in self.excluded
                 and any(is_subclass(p, cls) for p in d.info["parents"])]
 
-    def dag(self):
+    def has_ops(self):
+        return not self.literals_only and any(d.kind == "def" and d.info.get("usable") and d.name not in self.excluded for d in self.sc.visible().values())
+
+    def dag(self, depth=0, op=None):
         ops = [d for d in self.sc.visible().values() if d.kind == "def" and d.info.get("usable")
-               and d.name not in self.excluded]
+               and d.name not in self.excluded and not self.literals_only]
         if not ops:
             # a dag needs an operator; without any def fall back to an unset dag value
             return Lit("?", DAG)
-        op = self.r.choice(ops)
+        r = self.r
+        op = op or r.choice(ops)
         self.posctx.append("dag-operator")
         opx = IdUse(op, None, self.tag(op))
         self.posctx.pop()
+        form = r.choice(["lit"] * 6 + (["con", "dag", "setdagop"] if depth == 0 and not self.strict else []))
+        if form == "con":
+            return Bang("con", [self.dag(1, op), self.dag(1, op)], DAG)      # (!con wants the same operator)
+        if form == "setdagop":
+            return Bang("setdagop", [self.dag(1), opx], DAG)
+        if form == "dag":
+            n = r.randint(1, 2)
+            self.posctx.append("dag-arg")
+            vals = ListLit([self.expr(INT, True, leafy=True) for _ in range(n)], LIST(INT))
+            self.posctx.pop()
+            names = ListLit([Lit('"%s"' % x, STRING) for x in r.sample(["a", "b", "c"], n)], LIST(STRING))
+            return Bang("dag", [opx, vals, names], DAG)
         args = []
         self.posctx.append("dag-arg")
-        for _ in range(self.r.randint(0, 2)):
-            e = self.expr(self.r.choice([INT, STRING]), leafy=True)
-            args.append((e, self.r.choice([None, "n", "m"])))
+        for _ in range(r.randint(0, 3)):
+            name = r.choice([None, "n", "m", "src", "dst"])
+            c = r.random()
+            if c < 0.2 and len(ops) > 0:
+                d = r.choice(ops)
+                e = IdUse(d, None, self.tag(d))                  # a record as argument: (ins R:$a)
+            elif c < 0.3 and depth == 0:
+                e = self.dag(1)                                  # nested dag
+            elif c < 0.38:
+                e, name = Lit("?", DAG), name or "u"             # ?:$u
+            elif c < 0.45:
+                e, name = None, name or "x"                      # bare $x
+            elif c < 0.52 and args:
+                # (not as first argument: `(op [1])` is a slice of op)
+                e = ListLit([self.expr(INT, True, leafy=True)], LIST(INT))
+            else:
+                e = self.expr(r.choice([INT, STRING]), leafy=True)
+            args.append((e, name))
         self.posctx.pop()
         return DagLit(opx, args)
 
@@ -1314,6 +1609,12 @@ class Gen:
             cands += ["value"] * 2
         if self.defs_of(cls) and not self.strict and not exact:
             cands += ["cast"]      # (llvm-tblgen folds the cast to the def, whose type is more specific)
+            cands += ["getdagop"]
+        if self.kf_defm and not exact and not self.strict and not self.in_if:
+            recs = [n for n, ps in self.defm_records if any(is_subclass(q, cls) for q in ps) and n not in self.sc.visible()]
+            if recs and self.p(0.5):
+                self.meta["defm_record_use"] = self.meta.get("defm_record_use", 0) + 1
+                return DefmRecordUse(self.r.choice(recs), ty)
         if not cands:
             return Lit("?", ty)
         c = self.r.choice(cands)
@@ -1323,6 +1624,8 @@ class Gen:
         if c == "value":
             return ClassValue(self.classref(cls, "classvalue-name", True), ty)
         d = self.r.choice(self.defs_of(cls))
+        if c == "getdagop":
+            return Bang("getdagop", [self.dag(1, d)], ty, annot=ty)      # !getdagop<C>((d 1, 2))
         return Bang("cast", [Lit('"%s"' % d.name, STRING)], ty, annot=ty)
 
     def building_ref_of(self, cls):
@@ -1348,12 +1651,15 @@ class Gen:
         if self.o["named_args"] and ngiven and self.p(0.05):
             named_from = self.r.randint(0, ngiven - 1)
             self.meta["named_args"] = True
-        self.posctx.append({"classvalue-name": "classvalue-arg", "defm-ref": "defm-arg",
+        self.posctx.append({"classvalue-name": "classvalue-arg", "defm-ref": "defm-arg", "defm-class-ref": "defm-class-arg",
                             "multiclass-parent": "multiclass-parent-arg"}.get(tag, "parent-arg"))
+        # (the arguments of a multiclass may end up in an `if` / `foreach` of its body: only values that are resolved on the spot)
+        saved_strict, self.strict = self.strict, self.strict or target.kind == "multiclass"
         for i in range(ngiven):
             p_ = params[i]
             e = self.expr(p_.ty, leafy=self.depth > 2)
             args.append((p_.name if i >= named_from else None, e, p_))
+        self.strict = saved_strict
         self.posctx.pop()
         if named_from < ngiven and self.p(0.5):
             tail = args[named_from:]
@@ -1377,11 +1683,15 @@ class Gen:
 
     def candidates(self, ty, exact):
         out = []
+        if self.literals_only:
+            return out
         for d in self.sc.visible().values():
             if d.kind in ("defvar", "foreach", "bangvar", "targ", "field", "defset"):
                 if d.ty is None or (d.kind == "defset" and "defset-use" in self.avoid):
                     continue
                 if d.ty == ty or (not exact and assignable(d.ty, ty)):
+                    if exact and d.info.get("type_any"):
+                        continue
                     if self.strict and not d.info.get("concrete"):
                         continue
                     if self.no_fields and d.kind == "field":
@@ -1392,6 +1702,85 @@ class Gen:
                         continue
                     out.append(d)
         return out
+
+    def readable(self, pred, allow_unset=False):
+        """Visible value declarations whose type satisfies pred and that may be read here."""
+        out = []
+        if self.literals_only:
+            return out
+        for d in self.sc.visible().values():
+            if d.kind in ("defvar", "foreach", "bangvar", "targ", "field") and d.ty is not None and pred(d.ty):
+                if self.strict and not d.info.get("concrete"):
+                    continue
+                if self.no_fields and d.kind == "field":
+                    continue
+                if self.no_record and d.kind in ("field", "targ") and d.info.get("of_record"):
+                    continue
+                if (d.info.get("unset") and not allow_unset) or d.name in self.excluded:
+                    continue
+                out.append(d)
+        return out
+
+    def bit_range(self, ty, allow_unset=False):
+        """`v{hi-lo}` of a visible bits<n> value, n > k, as a value of bits<k> (k == 1: one bit)."""
+        k = 1 if ty.k == "bit" else ty.n
+        c = self.readable(lambda t: t.k == "bits" and t.n > k, allow_unset)
+        if not c:
+            return None
+        d = self.r.choice(c)
+        self.posctx.append("bit-range-base")
+        b = IdUse(d, d.ty, self.tag(d))
+        self.posctx.pop()
+        return BitRange(b, range_text(self.r, d.ty.n, k), ty)
+
+    TYPED_TOPS = ("field-init", "let-value", "targ-default", "parent-arg", "classvalue-arg", "defm-arg", "defm-class-arg",
+                  "multiclass-parent-arg", "let-in-value")
+
+    def typed_top(self, in_composite=False):
+        """Directly the value of a typed position (a diagnostic about its type is reported right there; written
+        deeper, a wrongly inferred type would spread into variables and operators)."""
+        return self.depth <= 1 and self.posctx[-2 if in_composite else -1] in self.TYPED_TOPS
+
+    def bits_concat(self, ty):
+        """{ a, b{1-0}, 0b10, 1 }: pieces whose widths add up to ty.n, at least one wider than a bit"""
+        r = self.r
+        left, elems, wide = ty.n, [], False
+        while left > 0:
+            k = r.randint(1, min(left, 4))
+            if k == 1:
+                elems.append(Lit(r.choice("01"), BIT))
+            else:
+                c = self.readable(lambda t: t.k == "bits" and t.n == k)
+                big = self.readable(lambda t: t.k == "bits" and t.n > k)
+                ch = r.random()
+                if c and ch < 0.4:
+                    d = r.choice(c)
+                    elems.append(IdUse(d, d.ty, self.tag(d)))
+                elif big and ch < 0.7:
+                    elems.append(self.bit_range(BITS(k)))
+                else:
+                    elems.append(Lit("0b" + "".join(r.choice("01") for _ in range(k)), BITS(k)))
+                wide = True
+            left -= k
+        if not wide or len(elems) < 2:
+            return None
+        return Marked(BitsCat(elems, ty), "bits-literal-with-multibit-elements", "contains")
+
+    def list_slice(self, ty):
+        c = [d for d in self.readable(lambda t: t.k == "list" and (t.elem == ty or t == ty))
+             if d.kind == "defvar" and d.info.get("minlen", 0) >= (1 if d.ty.elem == ty and d.ty != ty else 2)]
+        if not c:
+            return None
+        d = self.r.choice(c)
+        n = d.info["minlen"]
+        self.posctx.append("slice-base")
+        b = IdUse(d, d.ty, self.tag(d))
+        self.posctx.pop()
+        if d.ty != ty:
+            return ListSlice(b, str(self.r.randrange(n)), ty)
+        a = self.r.randrange(n - 1)
+        z = self.r.randint(a + 1, n - 1)
+        return ListSlice(b, self.r.choice(["%d...%d", "%d-%d", "%d, %d"]) % (a, z), ty)
 
     def oos_candidate(self, ty):
         if self.oos_budget <= 0:
@@ -1416,6 +1805,23 @@ class Gen:
         if cands and self.p(0.55 if not leafy else 0.8):
             d = r.choice(cands)
             return IdUse(d, ty, self.tag(d))
+        if not self.strict and not self.no_suffix and self.p(0.12):
+            sl = self.list_slice(ty)
+            if sl:
+                return sl
+        if self.in_mc_def and ty == STRING and not self.strict and self.p(0.12) and not (
+                set(self.posctx) & {"classvalue-arg", "body-defvar-init", "parent-arg", "defm-arg", "defm-class-arg", "multiclass-parent-arg"}):
+            # (not as an argument of a class value: llvm-tblgen 14 cannot resolve that under an anonymous defm)
+            self.meta["NAME"] = self.meta.get("NAME", 0) + 1
+            return Lit("NAME", STRING)       # the implicit NAME of a def inside a multiclass
+        if ty.k == "bits" and ty.n >= 2 and not self.strict and "bits-concat" not in self.avoid and self.typed_top() and self.p(0.05):
+            bc = self.bits_concat(ty)
+            if bc:
+                return bc
+        if not self.strict and not self.no_suffix and ((ty.k == "bits") or (ty.k == "bit" and not exact)) and self.p(0.25):
+            br = self.bit_range(ty)
+            if br:
+                return br
         if not leafy and not self.strict and not self.no_fields and self.p(0.2):
             fa = self.field_chain(ty) if self.p(0.25) else None
             fa = fa or self.field_access(ty)
@@ -1428,6 +1834,8 @@ class Gen:
     def field_access(self, ty):
         """`base.f` with f a field of type ty of a record-typed base."""
         bases = []
+        if self.literals_only:
+            return None
         for d in self.sc.visible().values():
             if d.name in self.excluded:
                 continue
@@ -1447,6 +1855,35 @@ class Gen:
                 over = {f.name for f in d.ty.cls.info.get("overridden", [])} | overridden_names(d.ty.cls.info["parents"])
                 bases += [(d, f, "overridden" if f.name in over else "plain") for f in class_fields(d.ty.cls)
                           if f.ty == ty and not f.info.get("unset")]
+        if self.p(0.2):
+            # l[i].f on a defvar holding a list of records
+            ls = [d for d in self.readable(lambda t: t.k == "list" and t.elem.k == "class") if d.kind == "defvar" and d.info.get("minlen")]
+            c2 = [(d, f) for d in ls for f in class_fields(d.ty.elem.cls) if f.ty == ty and not f.info.get("unset")]
+            if c2:
+                d, f = self.r.choice(c2)
+                over = {x.name for x in d.ty.elem.cls.info.get("overridden", [])} | overridden_names(d.ty.elem.cls.info["parents"])
+                self.posctx.append("slice-base")
+                b = ListSlice(IdUse(d, d.ty, self.tag(d)), str(self.r.randrange(d.info["minlen"])), d.ty.elem)
+                self.posctx.pop()
+                # (a def of the list may override f itself: the expectation only holds for the class)
+                return FieldAccess(b, f, "field@field-access%s:list-element-base" % ("-overridden" if f.name in over else ""), visited=None)
+        if (not bases or self.p(0.2)) and self.depth < 4:
+            alt = []
+            cur = self.sc.cur_class()
+            for c in self.usable_classes():
+                over = {x.name for x in c.info.get("overridden", [])} | overridden_names(c.info["parents"])
+                for f in class_fields(c):
+                    if f.ty == ty and not f.info.get("unset"):
+                        alt.append((c, f, "-overridden" if f.name in over else ""))
+            if alt:
+                c, f, how = self.r.choice(alt)
+                ds = [d for d in self.defs_of(c)]
+                if ds and self.p(0.4):
+                    d = self.r.choice(ds)        # !cast<C>("d").f
+                    b = Bang("cast", [Lit('"%s"' % d.name, STRING)], CLASS(c), annot=CLASS(c))
+                    return FieldAccess(b, f, "field@field-access%s:cast-base" % how)
+                b = ClassValue(self.classref(c, "classvalue-name", True), CLASS(c))       # C<args>.f
+                return FieldAccess(b, f, "field@field-access%s:classvalue-base" % how)
         if not bases:
             return None
         d, f, how = self.r.choice(bases)
@@ -1471,6 +1908,12 @@ class Gen:
                 return FieldAccess(inner, f, "field@field-access%s:chain-base" % ("-overridden" if f.name in over else ""))
         return None
 
+    def bangvar_of(self, lst, ty, **kw):
+        v = self.bangvar(ty, **kw)
+        if has_unset(lst):
+            v.info["type_any"] = True      # [?, ...]: the element type is not determined by the text
+        return v
+
     def bangvar(self, ty, borrow=True, kinds=("defvar", "foreach", "targ")):
         name = None
         if self.o["shadowing"] and borrow and self.p(0.3):
@@ -1494,7 +1937,9 @@ class Gen:
         self.posctx.append("bang-arg")
         try:
             if k == "int":
-                c = r.choice(["add", "sub", "mul", "and", "or", "size", "if", "head", "foldl", "xor", "shift", "find"])
+                c = r.choice(["add", "sub", "mul", "and", "or", "size", "if", "head", "foldl", "xor", "shift", "find", "cond"])
+                if c == "cond" and not self.no_binders:
+                    return self.cond(ty, exact)
                 if c in ("add", "mul", "and", "or", "xor"):
                     return Bang(c, [self.expr(INT) for _ in range(r.randint(2, 3))], INT)
                 if c == "sub":
@@ -1507,22 +1952,26 @@ class Gen:
                         a.append(Lit("0", INT))
                     return Bang("find", a, INT)
                 if c == "size":
-                    t = r.choice([LIST(INT), LIST(STRING), STRING])
+                    t = r.choice([LIST(INT), LIST(STRING), STRING] + ([DAG] if self.has_ops() else []))
                     return Bang(c, [self.expr(t)], INT)
                 if c == "if":
-                    return Bang("if", [self.expr(BIT), self.expr(INT, exact), self.expr(INT, exact)], INT)
+                    return Bang("if", [self.expr(BIT), self.expr(INT, True), self.expr(INT, True)], INT)
                 if c == "head":
                     return Bang("head", [self.nonempty_list(LIST(INT))], INT)
+                if self.no_binders:
+                    return self.literal(ty, exact)
                 return self.foldl(INT)
             if k == "bit":
-                c = r.choice(["eq", "ne", "lt", "le", "gt", "ge", "empty", "isa", "if", "not"])
+                c = r.choice(["eq", "ne", "lt", "le", "gt", "ge", "empty", "isa", "if", "not", "cond"])
+                if c == "cond" and not self.no_binders:
+                    return self.cond(ty, True)
                 if c in ("eq", "ne", "lt", "le", "gt", "ge"):
                     t = r.choice([INT, STRING])
                     return Bang(c, [self.expr(t, True), self.expr(t, True)], BIT)
                 if c == "not":
                     return Bang("not", [self.expr(BIT, True)], BIT)
                 if c == "empty":
-                    return Bang(c, [self.expr(r.choice([LIST(INT), LIST(STRING)]))], BIT)
+                    return Bang(c, [self.expr(r.choice([LIST(INT), LIST(STRING), STRING] + ([DAG] if self.has_ops() else [])))], BIT)
                 if c == "isa" and self.usable_classes() and not self.strict:
                     cls = r.choice(self.usable_classes())
                     base = r.choice(self.usable_classes())
@@ -1531,7 +1980,11 @@ class Gen:
                         return Bang("isa", [v], BIT, annot=CLASS(cls))
                 return Bang("if", [self.expr(BIT, True), self.expr(BIT, True), self.expr(BIT, True)], BIT)
             if k == "string":
-                c = r.choice(["strconcat", "paste", "if", "head", "interleave", "substr", "subst"])
+                c = r.choice(["strconcat", "paste", "if", "head", "interleave", "substr", "subst", "cond", "cast"])
+                if c == "cond" and not self.no_binders:
+                    return self.cond(ty, exact)
+                if c == "cast":
+                    return Bang("cast", [self.expr(INT, True)], STRING, annot=STRING)
                 if c == "strconcat":
                     return Bang(c, [self.expr(STRING) for _ in range(r.randint(2, 3))], STRING)
                 if c == "interleave":
@@ -1547,47 +2000,110 @@ class Gen:
                     return Bang(c, [Lit('"%s"' % r.choice(WORDS), STRING), self.expr(STRING, True), self.expr(STRING, True)], STRING)
                 if c == "paste":
                     self.posctx.append("paste")
+                    saved_ns, self.no_suffix = self.no_suffix, True
                     try:
                         return Paste([self.expr(STRING, leafy=True) for _ in range(2)])
                     finally:
+                        self.no_suffix = saved_ns
                         self.posctx.pop()
                 if c == "head":
                     return Bang("head", [self.nonempty_list(LIST(STRING))], STRING)
                 return Bang("if", [self.expr(BIT), self.expr(STRING, True), self.expr(STRING, True)], STRING)
             if k == "list":
-                c = r.choice(["lit", "listconcat", "tail", "foreach", "filter", "if", "listsplat"])
+                c = r.choice(["lit", "listconcat", "tail", "foreach", "filter", "if", "listsplat", "cond"])
                 el = ty.elem
+                if c == "cond" and not self.no_binders and el.k in ("int", "string"):
+                    return self.cond(ty, True)
+                if el.k in ("int", "string") and "list-paste" not in self.avoid and not self.no_suffix and self.typed_top(True) and self.p(0.1):
+                    saved_ns, self.no_suffix = self.no_suffix, True
+                    parts = [self.literal(ty, True), self.expr(ty, True, leafy=True)]
+                    self.no_suffix = saved_ns
+                    r.shuffle(parts)
+                    pl = Paste(parts)
+                    pl.ty = ty
+                    return Marked(pl, "list-paste", "contains")
+                if el.k == "class" and "def-typed-join" not in self.avoid and not self.strict and len(self.defs_of(el.cls)) >= 1 \
+                        and self.typed_top(True) and self.p(0.25):
+                    a = ListLit([self.record_value(el, False)], ty)
+                    b = ListLit([self.record_value(el, False)], ty)
+                    if self.p(0.5):
+                        return Marked(Bang("listconcat", [a, b], ty), "def-typed-join")
+                    return Marked(Bang("if", [self.expr(BIT), a, b], ty), "def-typed-join")
                 if c == "listsplat" and el.k in ("int", "string", "bit"):
                     return Bang(c, [self.expr(el, True), Lit(str(r.randint(0, 3)), INT)], ty)
                 if c == "listconcat":
                     return Bang(c, [self.expr(ty, True), self.expr(ty, True)], ty)
                 if c == "tail":
                     return Bang(c, [self.nonempty_list(ty)], ty)
+                if c in ("foreach", "filter") and self.no_binders:
+                    c = "lit"
                 if c == "foreach" and (el.k in ("int", "string", "bit") or (el.k == "class" and el.cls is not self.sc.cur_class())):
                     src = r.choice([LIST(INT), LIST(STRING)])
+                    rf = self.record_field_of(el) if self.p(0.35) else None      # over a list of records: x.f in the body
+                    if rf is not None:
+                        src = LIST(CLASS(rf[0]))
                     lst = self.expr(src, True)
-                    v = self.bangvar(src.elem)
+                    v = self.bangvar_of(lst, src.elem)
                     fr = self.sc.push(Frame("bang"))
                     fr.vars[v.name] = v
-                    body = self.expr(el, True)
+                    if rf is not None and self.p(0.8):
+                        body = FieldAccess(IdUse(v, v.ty, "bangvar@field-access-base"), rf[1], "field@field-access%s:bangvar-base" % rf[2])
+                    else:
+                        body = self.expr(el, True)
                     self.sc.pop()
                     self.dead.append((v, "bangvar"))
                     return Bang("foreach", [None, lst, body], ty, vars={0: v})
                 if c == "filter":
                     lst = self.expr(ty, True)
-                    v = self.bangvar(el)
+                    v = self.bangvar_of(lst, el)
                     fr = self.sc.push(Frame("bang"))
                     fr.vars[v.name] = v
-                    body = self.expr(BIT, True)
+                    fs = [f for f in class_fields(el.cls) if f.ty == INT and not f.info.get("unset")] if el.k == "class" else []
+                    if fs and self.p(0.8):
+                        f = r.choice(fs)
+                        over = {x.name for x in el.cls.info.get("overridden", [])} | overridden_names(el.cls.info["parents"])
+                        body = Bang(r.choice(["lt", "gt", "eq"]), [FieldAccess(IdUse(v, v.ty, "bangvar@field-access-base"), f,
+                                    "field@field-access%s:bangvar-base" % ("-overridden" if f.name in over else "")), self.expr(INT, True, leafy=True)], BIT)
+                    else:
+                        body = self.expr(BIT, True)
                     self.sc.pop()
                     self.dead.append((v, "bangvar"))
                     return Bang("filter", [None, lst, body], ty, vars={0: v})
                 if c == "if":
                     return Bang("if", [self.expr(BIT), self.expr(ty, True), self.expr(ty, True)], ty)
                 return ListLit(self.list_elems(el, exact, r.randint(1, 3)), ty)
+            if k == "class" and not exact and not self.strict and "def-typed-join" not in self.avoid and self.defs_of(ty.cls) \
+                    and ty.cls is not self.sc.cur_class() and self.typed_top(True) and self.p(0.3):
+                return Marked(Bang("if", [self.expr(BIT), self.record_value(ty, False), self.record_value(ty, False)], ty), "def-typed-join")
             return self.literal(ty, exact)
         finally:
             self.posctx.pop()
+
+    def record_field_of(self, ty):
+        """(class, field, overridden marker): a usable class with a readable field of type ty."""
+        c = []
+        for cls in self.usable_classes():
+            over = {x.name for x in cls.info.get("overridden", [])} | overridden_names(cls.info["parents"])
+            c += [(cls, f, "-overridden" if f.name in over else "") for f in class_fields(cls) if f.ty == ty and not f.info.get("unset")]
+        return self.r.choice(c) if c else None
+
+    def cond(self, ty, exact):
+        ctxs = set(self.posctx)
+        if self.loops or self.in_cond or self.in_multiclass is not None or not self.in_plain_def or not self.typed_top(True) or \
+                not (ctxs & {"field-init", "let-value"}) or \
+                (ctxs & {"parent-arg", "targ-default", "classvalue-arg", "defm-arg", "defm-class-arg", "multiclass-parent-arg"}):
+            # (llvm-tblgen 14 gives up silently - exit code 1, no message - on a !cond it cannot fold yet: inside a
+            #  foreach, in template argument lists and defaults; and it mis-parses a !cond in the condition position
+            #  of another one, and on one that depends on template arguments of a class.  Only written in field
+            #  initialisers and `let` values in the body of a top-level def, and not as an operand: `!not(!cond(1: f, true: 0))`
+            #  is a syntax error for llvm-tblgen 14.)
+            return self.literal(ty, exact)
+        n = self.r.randint(1, 2)
+        self.in_cond = True
+        cl = [(self.expr(BIT), self.expr(ty, True)) for _ in range(n)]
+        cl.append((Lit("true", BIT), self.expr(ty, True)))
+        self.in_cond = False
+        return Cond(cl, ty)
 
     def nonempty_list(self, ty):
         l = ListLit(self.list_elems(ty.elem, True, self.r.randint(1, 2), True), ty)
@@ -1598,14 +2114,20 @@ class Gen:
     def foldl(self, ty):
         init = self.expr(ty, True, leafy=True)
         src = self.r.choice([LIST(INT), LIST(INT), LIST(STRING)])
+        rf = self.record_field_of(INT) if self.p(0.3) else None
+        if rf is not None:
+            src = LIST(CLASS(rf[0]))
         lst = self.expr(src, True)
         # (llvm-tblgen 14 substitutes a foreach iterator into !foldl's own variables: not borrowed)
-        acc = self.bangvar(ty, kinds=("defvar", "targ"))
+        acc = self.bangvar(ty, kinds=("defvar",))
         fr = self.sc.push(Frame("bang"))
         fr.vars[acc.name] = acc
-        v = self.bangvar(src.elem, kinds=("defvar", "targ"))
+        v = self.bangvar_of(lst, src.elem, kinds=("defvar",))
         fr.vars[v.name] = v
-        if src.elem == INT:
+        if rf is not None:
+            body = Bang("add", [IdUse(acc, ty, "bangvar@bang-arg"),
+                                FieldAccess(IdUse(v, v.ty, "bangvar@field-access-base"), rf[1], "field@field-access%s:bangvar-base" % rf[2])], INT)
+        elif src.elem == INT:
             body = Bang("add", [IdUse(acc, ty, "bangvar@bang-arg"), self.expr(INT, True)], INT)
         else:
             body = Bang("add", [IdUse(acc, ty, "bangvar@bang-arg"), Bang("size", [self.expr(STRING, True)], INT)], INT)
@@ -1653,7 +2175,9 @@ class Gen:
         return self.fresh("f")
 
     def iter_name(self):
-        if self.o["shadowing"] and self.p(0.12):
+        # (an iterator named like a global defvar is no longer written: llvm-tblgen 14 substitutes the loop variable
+        #  into inherited field values that mention the global of the same name)
+        if self.o["shadowing"] and self.o.get("foreach_shadows_global") and self.p(0.12):
             vis = self.sc.visible()
             g = self.sc.frames[0]
             c = [n for n in self.global_value_names(("defvar",)) if vis.get(n) is g.vars[n] and n not in self.sc.visible_fields_targs()]
@@ -1679,7 +2203,8 @@ class Gen:
         for c in cands:
             if len(out) >= min(n, maxn):
                 break
-            if all(not (set(ancestors(c)) & set(ancestors(o))) for o in out):
+            if all(not (set(ancestors(c)) & set(ancestors(o))) for o in out) and \
+                    all(not ({f.name for f in class_fields(c)} & {f.name for f in class_fields(o)}) for o in out):
                 out.append(c)
         return out
 
@@ -1697,10 +2222,12 @@ class Gen:
                 defaulting = True
                 self.posctx.append("targ-default")
                 self.excluded = {d.name}
+                self.no_binders = True      # (llvm-tblgen 14: a default made of !foldl over another argument counts as "not specified")
                 default = self.expr(ty)
+                self.no_binders = False
                 self.excluded = set()
                 self.posctx.pop()
-                if isinstance(default, Lit) and default.t == "?":
+                if has_unset(default):
                     default, defaulting = None, False
                 else:
                     d.info["default"] = True
@@ -1715,22 +2242,28 @@ class Gen:
             return None
         items = []
         inherited = [f for p_ in fr.rec["parents"] for f in class_fields(p_)]
-        lettable = list(inherited)
+        lettable = [f for f in inherited if not (f.ty.k == "class" and f.ty.cls is self.pending_fwd)]
         r.shuffle(lettable)
+        if self.o.get("encodings", True) and "same-body-let" not in self.avoid and self.p(0.02):
+            items += self.gen_encoding(owner, fr)
         for _ in range(r.choice([0, 1, 1, 2, 3, 4])):
             c = r.choice(["field"] * 5 + ["let"] * 3 + ["defvar"] * 2 + (["assert"] if self.o["assert_stmt"] else []))
             if c == "assert":
                 items.append(self.gen_assert(strict=False))
             elif c == "let" and lettable:
                 f = lettable.pop()
+                rng = vty = None
+                if f.ty.k == "bits" and f.ty.n >= 2 and self.p(0.5):
+                    k = r.randint(1, f.ty.n - 1)          # `let f{hi-lo} = v;` / `let f{i} = b;`
+                    rng, vty = range_text(r, f.ty.n, k), (BIT if k == 1 else BITS(k))
                 self.posctx.append("let-value")
                 self.no_fields = True      # `let f = g;` can build reference cycles between fields
-                e = self.expr(f.ty)
+                e = self.expr(vty or f.ty)
                 self.no_fields = False
                 self.posctx.pop()
                 fr.rec["overridden"].add(f.name)
                 owner.info["overridden"].append(f)
-                items.append(FieldLet(f, e, self.doc()))
+                items.append(FieldLet(f, e, self.doc(), rng, vty))
             elif c == "defvar":
                 name = self.defvar_name()
                 fr.reserved.add(name)
@@ -1753,7 +2286,10 @@ class Gen:
                 fr.reserved.add(name)
                 d = Decl("field", name, ty, owner=owner)
                 d.info["of_record"] = True
-                if not (ty.k == "class" and ty.cls is owner) and self.p(0.8):
+                if not (ty.k == "class" and ty.cls is owner) and self.p(0.04):
+                    e = Lit("?", ty)                  # explicitly unset
+                    d.info["unset"] = True
+                elif not (ty.k == "class" and ty.cls is owner) and self.p(0.8):
                     self.posctx.append("field-init")
                     self.excluded = {name}
                     e = self.field_init(ty)
@@ -1764,6 +2300,58 @@ class Gen:
                 fr.rec["fields"].insert(0, d)
                 owner.info["fields"].insert(0, d)
                 items.append(FieldDef(d, e, self.doc()))
+        return items
+
+    def gen_encoding(self, owner, fr):
+        """An instruction encoding a la LLVM: `bits<16> Inst; bits<4> rd; let Inst{15-12} = opc; let Inst{11-8} = rd; ...`
+        The encoding field and the operand fields stay (partly) unset and are never read as whole values; inside a bits
+        value an unresolved reference is legal TableGen."""
+        r = self.r
+        items = []
+        n = r.choice([8, 8, 16])
+        enc = Decl("field", self.fresh("f"), BITS(n), owner=owner)
+        enc.info.update(of_record=True, unset=True)
+        fr.reserved.add(enc.name)
+        fr.rec["fields"].insert(0, enc)
+        owner.info["fields"].insert(0, enc)
+        items.append(FieldDef(enc, None, self.doc()))
+        ops = []
+        for _ in range(r.choice([0, 1, 2])):
+            o = Decl("field", self.fresh("f"), BITS(r.choice([2, 3, 4])), owner=owner)
+            o.info.update(of_record=True, unset=True)
+            fr.reserved.add(o.name)
+            fr.rec["fields"].insert(0, o)
+            owner.info["fields"].insert(0, o)
+            items.append(FieldDef(o, None, self.doc()))
+            ops.append(o)
+        sources = ops + [d for d in fr.vars.values() if d.kind == "targ" and d.ty.k == "bits" and d.ty.n < n]
+        r.shuffle(sources)
+        hi = n - 1
+        self.posctx.append("let-value")
+        while hi >= 0:
+            src = sources.pop() if sources and sources[-1].ty.n <= hi + 1 and self.p(0.8) else None
+            k = src.ty.n if src is not None else r.randint(1, min(4, hi + 1))
+            lo = hi - k + 1
+            if k == 1:
+                rng, vty = str(hi), BIT
+            else:
+                rng, vty = r.choice(["%d-%d", "%d...%d"]) % (hi, lo), BITS(k)
+            if src is not None:
+                e = IdUse(src, src.ty, self.tag(src))
+            elif self.p(0.15):
+                e = None                                   # these bits stay unset
+            elif self.p(0.1):
+                e = Lit("?", vty)
+            else:
+                self.no_fields = True
+                e = self.expr(vty, leafy=True)
+                self.no_fields = False
+            if e is not None:
+                items.append(FieldLet(enc, e, self.doc(), rng, vty))
+            hi = lo - 1
+        self.posctx.pop()
+        fr.rec["overridden"].add(enc.name)
+        self.meta["encodings"] = self.meta.get("encodings", 0) + 1
         return items
 
     def field_init(self, ty):
@@ -1799,11 +2387,72 @@ class Gen:
         for f in fr.rec["fields"]:
             self.dead.append((f, "class-field" if is_class else "def-field"))
 
-    def gen_class(self):
-        decl = Decl("class", self.fresh("C"))
+    def gen_defm_user(self):
+        """`def u { C r = m1__x1; }`: a record created by an earlier top-level defm used as a value."""
+        recs = [(n, ps) for n, ps in self.defm_records if n not in self.sc.visible()]
+        if not recs:
+            # make one: multiclass + defm, as ordinary statements, next time round
+            return None
+        name, ps = self.r.choice(recs)
+        c = self.r.choice(ps)
+        decl = Decl("def", self.fresh("d"))
+        decl.info = dict(parents=[], fields=[], overridden=[], usable=True, concrete=True, pasted=False)
+        f = Decl("field", self.fresh("f"), CLASS(c), owner=decl)
+        f.info["of_record"] = True
+        decl.info["fields"].append(f)
+        items = [FieldDef(f, DefmRecordUse(name, CLASS(c)), self.doc())]
+        fs = [x for x in class_fields(c) if not x.info.get("unset") and x.ty.k in ("int", "string", "bit")]
+        if fs and self.p(0.5):
+            x = self.r.choice(fs)
+            g = Decl("field", self.fresh("f"), x.ty, owner=decl)
+            g.info["of_record"] = True
+            decl.info["fields"].insert(0, g)
+            # the field of a defm record: no goto expectation (the base is unknown to the indexer)
+            items.append(FieldDef(g, FieldAccess(DefmRecordUse(name, CLASS(c)), x, "field@field-access:defm-record-base", visited=None), self.doc()))
+        self.sc.frames[0].vars[decl.name] = decl
+        self.meta["defm_record_use"] = self.meta.get("defm_record_use", 0) + 1
+        return DefStmt(decl, [], [], items, self.doc())
+
+    def gen_forward_group(self):
+        """`class X;` ... a class with a field of type X ... `class X { ... }`"""
+        x = Decl("class", self.fresh("C"))
+        x.info = dict(parents=[], targs=[], fields=[], overridden=[], forward=True)
+        out = [ForwardClassStmt(x, self.doc())]
+        self.pending_fwd = x
+        out.append(self.gen_class(fwd_field=x))
+        if self.p(0.5):
+            st = self.stmt("top")
+            if st is not None:
+                out.append(st)
+        self.pending_fwd = None
+        out.append(self.gen_class(decl=x))
+        self.fwd_done = True
+        self.meta["forward_class"] = 1
+        # a def of the defined class given to the field that was typed before the definition
+        holder = out[1].decl
+        fld = holder.info["fields"][0]
+        saved, self.let_constraint = self.let_constraint, [holder]
+        for _ in range(4):
+            st = self.gen_def()
+            if st is None:
+                break
+            if not any(isinstance(it, FieldLet) and it.field is fld for it in (st.items or [])):
+                self.posctx.append("let-value")
+                self.literals_only = True      # (the value is written into the body of st: no names of this scope)
+                e = self.expr(fld.ty)
+                self.literals_only = False
+                self.posctx.pop()
+                st.items = (st.items or []) + [FieldLet(fld, e, self.doc())]
+            out.append(st)
+            break
+        self.let_constraint = saved
+        return out
+
+    def gen_class(self, decl=None, fwd_field=None):
+        decl = decl or Decl("class", self.fresh("C"))
         parents = self.pick_parents() or []
         inherited = {f.name for p_ in parents for f in class_fields(p_)}
-        decl.info = dict(parents=[], targs=[], fields=[], overridden=[])
+        decl.info = dict(parents=[], targs=[], fields=[], overridden=[], forward=decl.info.get("forward", False))
         fr = self.sc.push(Frame("record", rec=dict(parents=[], fields=[], cls=decl, overridden=set())))
         targs = self.gen_targs(fr, inherited)
         decl.info["targs"] = [a.decl for a in targs]
@@ -1815,6 +2464,12 @@ class Gen:
         fr.rec["parents"] = parents
         decl.info["parents"] = parents
         items = self.gen_body(decl, fr, True)
+        if fwd_field is not None:
+            # a field whose type is a class that is only declared so far: no initialiser, never read
+            f = Decl("field", self.fresh("f"), CLASS(fwd_field), owner=decl)
+            f.info.update(of_record=True, unset=True, fwd_typed=True)
+            decl.info["fields"].insert(0, f)
+            items = (items or []) + [FieldDef(f, None, self.doc())]
         if self.o["heir_targs"] and items is not None and parents:
             pt = [a for p_ in parents for a in p_.info["targs"] if a.name not in self.sc.visible()]
             if pt:
@@ -1863,6 +2518,8 @@ class Gen:
             decl.info["pasted"] = bool(sfx)
         holder = decl or Decl("def", "<anonymous>")
         holder.info = dict(parents=[], fields=[], overridden=[], usable=False, pasted=bool(sfx))
+        saved_mcd, self.in_mc_def = self.in_mc_def, self.in_multiclass is not None
+        saved_pd, self.in_plain_def = self.in_plain_def, self.in_multiclass is None and not self.loops
         fr = self.sc.push(Frame("record", rec=dict(parents=[], fields=[], cls=None, overridden=set())))
         self.no_fields = True
         self.excluded = {f.name for p_ in parents for f in class_fields(p_)}
@@ -1872,8 +2529,15 @@ class Gen:
         fr.rec["parents"] = parents
         holder.info["parents"] = parents
         items = self.gen_body(holder, fr, False)
+        self.in_mc_def = saved_mcd
+        self.in_plain_def = saved_pd
         self.sc.pop()
         self.retire_record(fr, holder, False)
+        if self.in_multiclass is not None:
+            flds = {f.name for q in parents for f in class_fields(q)} | {f.name for f in holder.info["fields"]}
+            self.mc_prod.append(dict(anc=set().union(*[set(ancestors(q)) for q in parents]) if parents else set(), fields=flds,
+                                     name=(decl.name if decl is not None and not sfx else None), parents=list(parents),
+                                     direct=not self.loops and not self.in_if))
         if decl is not None and not sfx and self.in_multiclass and parents:
             # the records a defm creates are called <defm name><this name>: the bare name never exists
             self.dead.append((Decl("def", decl.name, CLASS(parents[0])), "def@multiclass"))
@@ -1881,20 +2545,47 @@ class Gen:
             decl.info["usable"] = True
             decl.info["concrete"] = True
             self.sc.frames[0].vars[decl.name] = decl
-        return DefStmt(decl, sfx, refs, items, self.doc(), oneline=self.p(0.3))
+        name_prefix = decl is not None and not sfx and self.in_multiclass is not None and self.p(0.12)
+        if name_prefix:
+            decl.info["unchecked"] = True     # (the indexer takes `NAME` as the name of this def)
+        return DefStmt(decl, sfx, refs, items, self.doc(), oneline=self.p(0.3), name_prefix=name_prefix)
 
     # -- simple statements -------------------------------------------------------------------------
+    def gen_defvar_records(self):
+        """`defvar v = [d1, d2];` - a list of defs of one class (its element type is only known loosely)"""
+        cs = [c for c in self.classes if len(self.defs_of(c)) >= 1]
+        if not cs or self.strict:
+            return None
+        c = self.r.choice(cs)
+        ds = self.defs_of(c)
+        n = min(len(ds), self.r.randint(1, 3))
+        self.posctx.append("defvar-init")
+        elems = [IdUse(d, CLASS(c), self.tag(d)) for d in self.r.sample(ds, n)]
+        self.posctx.pop()
+        d = Decl("defvar", self.fresh("v"), LIST(CLASS(c)))
+        d.info.update(concrete=True, minlen=n, type_any=True)
+        self.target_frame().vars[d.name] = d
+        return DefvarStmt(d, ListLit(elems, LIST(CLASS(c))), self.doc())
+
     def gen_defvar(self):
+        if self.p(0.1) and not self.in_if:
+            st = self.gen_defvar_records()
+            if st is not None:
+                return st
         name = self.defvar_name()
         strict = self.p(0.6)
         saved, self.strict = self.strict, self.strict or strict
         self.posctx.append("defvar-init")
+        self.in_defvar = True
         e = self.expr(self.rand_simple_type(), exact=True)
+        self.in_defvar = False
         self.posctx.pop()
         concrete = self.strict
         self.strict = saved
         d = Decl("defvar", name, e.ty)
         d.info["concrete"] = concrete
+        if isinstance(e, ListLit):
+            d.info["minlen"] = len(e.elems)      # l[i] is only written for i < the known length
         self.target_frame().vars[name] = d
         return DefvarStmt(d, e, self.doc())
 
@@ -1988,14 +2679,23 @@ class Gen:
             return None
         items = []
         self.posctx.append("let-in-value")
-        for f in self.r.sample(fields, min(len(fields), self.r.choice([1, 1, 2]))):
-            items.append((f, self.expr(f.ty)))
+        ranges = {}
+        chosen = self.r.sample(fields, min(len(fields), self.r.choice([1, 1, 2])))
+        self.excluded = {f.name for f in chosen}      # (inside the records these names are the fields themselves)
+        for f in chosen:
+            vty = f.ty
+            if f.ty.k == "bits" and f.ty.n >= 2 and self.p(0.5):
+                kk = self.r.randint(1, f.ty.n - 1)
+                vty = BIT if kk == 1 else BITS(kk)
+                ranges[len(items)] = (range_text(self.r, f.ty.n, kk), vty)
+            items.append((f, self.expr(vty)))
+        self.excluded = set()
         self.posctx.pop()
         self.let_constraint.append(k)
         braces = self.p(0.6)
         stmts = self.block("let", n=None if braces else 1)
         self.let_constraint.pop()
-        return LetStmt(items, stmts, braces, self.doc())
+        return LetStmt(items, stmts, braces, self.doc(), ranges)
 
     def gen_defset(self):
         cs = [c for c in self.classes if all(is_subclass(c, k) or is_subclass(k, c) for k in self.let_constraint)]
@@ -2027,6 +2727,8 @@ class Gen:
         self.in_multiclass = decl
         self.unusable += 1
         self.mc_defs = []
+        self.mc_prod = [dict(e) for pm_ in decl.info["parents"] for e in pm_.info["prod"]]
+        decl.info["prod"] = self.mc_prod      # what one instantiation creates: one entry per def
         stmts = self.stmts(self.r.choice([1, 2, 2, 3]), "multiclass")
         self.unusable -= 1
         self.in_multiclass = None
@@ -2039,6 +2741,11 @@ class Gen:
 
     def gen_defm(self):
         ms = [m for m in self.multiclasses if m is not self.in_multiclass]
+        must = list(self.let_constraint)
+        if must:
+            # inside `let f = v in` / a defset every created record must have the field / the class
+            ms = [m for m in ms if m.info["prod"] and
+                  all(any(id(k) == a for a in e["anc"]) for e in m.info["prod"] for k in must)]
         if not ms:
             return None
         anonymous, sfx = self.p(0.2), []
@@ -2056,12 +2763,40 @@ class Gen:
             c2 = [m for m in ms if not (anc(m) & anc(refs[0].target))]
             if c2:
                 refs.append(self.classref(self.r.choice(c2), "defm-ref"))
+        prod = [dict(e) for rf in refs for e in rf.target.info["prod"]]
+        # classes after the multiclasses: parents of every def created
+        extra = []
+        if self.o.get("defm_classes", True) and self.p(0.3) and \
+                not (self.in_multiclass is not None and "defm-class-in-multiclass" in self.avoid):
+            cands = list(self.classes)
+            self.r.shuffle(cands)
+            for c in cands:
+                if len(extra) >= self.r.choice([1, 1, 2]):
+                    break
+                ca, cf = set(ancestors(c)), {f.name for f in class_fields(c)}
+                if all(not (ca & e["anc"]) and not (cf & e["fields"]) for e in prod) and \
+                        all(not (ca & set(ancestors(x))) and not (cf & {f.name for f in class_fields(x)}) for x in extra):
+                    extra.append(c)
+            for c in extra:
+                refs.append(self.classref(c, "defm-class-ref"))
+                for e in prod:
+                    e["anc"] = e["anc"] | set(ancestors(c))
+                    e["fields"] = e["fields"] | {f.name for f in class_fields(c)}
+                    e["parents"] = e["parents"] + [c]
         decl = None
         if not anonymous:
             decl = Decl("defm", (self.fresh("_m") if self.in_multiclass else self.fresh("m")) + "_")
             decl.info["pasted"] = bool(sfx)
         elif sfx:
             sfx = []
+        direct = not self.loops and not self.in_if and decl is not None and not sfx
+        for e in prod:
+            e["name"] = decl.name + e["name"] if (direct and e["name"]) else None
+            e["direct"] = e["direct"] and direct
+        if self.in_multiclass is not None:
+            self.mc_prod.extend(prod)
+        elif direct and not self.unusable:
+            self.defm_records += [(e["name"], e["parents"]) for e in prod if e["name"] and e["direct"] and e["parents"]]
         return DefmStmt(decl, sfx, refs, self.doc())
 
     def gen_assert(self, strict=True):
@@ -2108,10 +2843,12 @@ class Gen:
         if where == "top":
             kinds = ["class"] * 5 + ["def"] * 5 + ["defvar"] * 3 + ["foreach"] * 3 + ["if"] * 2 + ["let"] * 2 + \
                     ["defset"] * 2 + ["multiclass"] * 3 + ["defm"] * 3
+            if self.kf_defm and not self.defm_records:
+                kinds += ["multiclass"] * 6 + ["defm"] * 10
         elif where == "multiclass":
             kinds = ["def"] * 5 + ["defvar"] * 2 + ["foreach"] * 2 + ["if"] * 2 + ["let"] + ["defm"] * 2
         elif where in ("let", "defset"):
-            kinds = ["def"] * 6 + ["defvar"] * 2 + ["foreach"] * 2 + ["if"] + ["let"]
+            kinds = ["def"] * 6 + ["defvar"] * 2 + ["foreach"] * 2 + ["if"] + ["let"] + ["defm"] * 2
         else:
             kinds = ["def"] * 5 + ["defvar"] * 3 + ["foreach"] * 2 + ["if"] * 2 + ["let"] + ["defm"] * 2 + ["defset"]
         if self.o["assert_stmt"] and where not in ("let", "defset"):
@@ -2123,7 +2860,7 @@ class Gen:
             self.nested_where = where
             return self.gen_nested_include()
         k = r.choice(kinds)
-        if k == "defm" and (self.let_constraint or self.in_defset):
+        if k == "defm" and self.in_defset and not self.let_constraint:
             return None
         if k == "defset" and (self.in_multiclass or self.loops or self.in_defset):
             return None
@@ -2197,6 +2934,28 @@ class Gen:
             if not self.classes and r.random() < 0.8:
                 want = "class"
             where = "top" if not nested else self.nested_where
+            if self.kf_fwd and not self.fwd_done and not nested and self.classes and self.p(0.4):
+                stmts.extend(self.gen_forward_group())
+                continue
+            if self.kf_defm and not nested and not self.meta.get("defm_record_use") and self.classes and self.p(0.5):
+                if not self.defm_records and not self.kf_defm_tried:
+                    # a multiclass with a directly written, named def and a named top-level defm of it
+                    self.kf_defm_tried = True
+                    for _ in range(3):
+                        mc = self.gen_multiclass()
+                        stmts.append(mc)
+                        if any(e["name"] and e["direct"] and e["parents"] for e in mc.decl.info["prod"]):
+                            break
+                    for _ in range(3):
+                        if self.defm_records:
+                            break
+                        dm = self.gen_defm()
+                        if dm is not None:
+                            stmts.append(dm)
+                st = self.gen_defm_user()
+                if st is not None:
+                    stmts.append(st)
+                    continue
             for _try in range(6):
                 st = self.gen_class() if want == "class" and not nested else self.stmt(where)
                 if st is not None:
@@ -2293,6 +3052,11 @@ def rerender(tree, root, seed=None, opts=None):
     for d in w.decl_sites:
         w.count("doc:%s:%s" % (d.kind, d.doc_tag))
     w.count("files:%d" % len(p.files))
+    # regions whose discrepancies have one named cause (so that its many consequences share a construct name)
+    p.regions = [dict(file=c["file"], start=c["span"][0], end=c["span"][1], cause="defm-class-in-multiclass", mode="inside")
+                 for c in w.classrefs if c["ctx"] == "defm-class" and "multiclass" in c["path"].split("/")] + list(w.regions)
+    p.known_false_sites = list(w.known_false)
+    p.known_false = sorted({k["kind"] for k in w.known_false})
     p.n_oos = sum(1 for u in p.uses if u["decl"] is None)
     p.named_args = any(c["named"] for c in w.classrefs)
     p.heir_targs = any(u["tag"].endswith(":in-heir") for u in p.uses)
@@ -2342,7 +3106,8 @@ FAULT_CLASSES = ("undefined-class", "undefined-multiclass", "undefined-identifie
                  "missing-template-argument", "surplus-template-argument", "type-incompatible-initialiser",
                  "type-incompatible-argument", "wrong-operator-arity", "syntax-error-root", "syntax-error-include")
 
-CLASS_POS_TAGS = ("class-parent", "def-parent", "classvalue-name", "targ-type", "field-type", "defset-type", "bang-type")
+CLASS_POS_TAGS = ("class-parent", "def-parent", "classvalue-name", "targ-type", "field-type", "defset-type", "bang-type",
+                  "defm-class-ref")
 
 
 def wrong_literal(ty):
@@ -2351,7 +3116,7 @@ def wrong_literal(ty):
         return '"oops"' if ty.k != "dag" else "7"
     if ty.k == "class":
         return "7"
-    if ty.k == "string":
+    if ty.k in ("string", "code"):
         return "7"
     if ty.k == "list":
         return '"oops"' if ty.elem.k != "string" else "7"
@@ -2403,11 +3168,11 @@ def fault_sites(p):
 
     for u in p.uses:
         d = u["decl"]
-        if d is None:
-            continue
+        if d is None or u["visited"] is None and not u["tag"].endswith(":before-definition"):
+            continue      # (declaration of a forward class, field of a defm record: nothing to seed)
         s, e = u["start"], u["end"]
         base = u["tag"].split("@")[-1] if "@" in u["tag"] else u["tag"]
-        if d.kind == "class" and u["tag"] in CLASS_POS_TAGS:
+        if d.kind == "class" and u["tag"].split(":")[0] in CLASS_POS_TAGS:
             new = "Undefined_C"
             add("undefined-class", u["tag"], u["file"], s, e, new, (s, s + len(new)))
         elif d.kind == "multiclass":
